@@ -162,6 +162,9 @@ VALS = [0, 5, 10, 12.5, 20, 33.33, 50, 80, 70.1, 10.1, 0.1, 0.2, 29.9, 60, 75, 8
 
 def rand_layout(rng, need_origin=False):
     sz = lambda: Size(rng.choice(VALS), PCT)
+    if not need_origin and rng.random() < 0.1:
+        # a layout that is a padding and nothing else (or an extent and nothing else) is a layout
+        return Layout(padding=Padding(sz(), sz(), sz(), sz())) if rng.random() < 0.7 else Layout(extent=Stretch(sz(), sz()))
     o = Point(sz(), sz()) if (need_origin or rng.random() < 0.6) else None
     e = Stretch(sz(), sz()) if rng.random() < 0.5 else None
     arity = rng.choice([0, 0, 1, 2, 3, 4])
@@ -240,55 +243,61 @@ def bounded_dfxp_roundtrip(ctx, b):
     rng = random.Random(ctx.seed)
     n = 150 if not ctx.thorough else 3000
     for i in range(n):
-        lang_l = rand_layout(rng) if rng.random() < 0.5 else None
-        caps, expect = [], []
-        for j in range(rng.choice([1, 2, 3])):
-            cap_l = rand_layout(rng) if rng.random() < 0.5 else None
-            if caps and caps[-1].layout_info is not None and rng.random() < 0.3:
-                cap_l = noisy(caps[-1].layout_info)
-            nodes = []
-            for k in range(rng.choice([1, 2])):
-                # a node-level layout is carried by a span: start-style, text, end-style nodes
-                node_l = rand_layout(rng) if rng.random() < 0.4 else None
-                if lang_l is not None and cap_l is not None and rng.random() < 0.25:
-                    node_l = lang_l            # a span back in the language's own layout, inside a caption that has another one
-                if nodes:
-                    nodes.append(CaptionNode.create_break(layout_info=cap_l))
-                # ... and a node without one may sit in a styled span that has no layout either: the span's text
-                # takes the caption's layout (else the language's)
-                italic = node_l is None and rng.random() < 0.4
-                if node_l:
-                    nodes.append(CaptionNode.create_style(True, {}, layout_info=node_l))
-                if italic:
-                    nodes.append(CaptionNode.create_style(True, {"italics": True}))
-                nodes.append(T(f"t{j}{k}", node_l))
-                if italic:
-                    nodes.append(CaptionNode.create_style(False, {"italics": True}))
-                if node_l:
-                    nodes.append(CaptionNode.create_style(False, {}, layout_info=node_l))
-                expect.append((f"t{j}{k}", node_l or cap_l or lang_l, "language" if not (node_l or cap_l) else "own"))
-            caps.append(Caption(j * 10 ** 6, (j + 1) * 10 ** 6, nodes, layout_info=cap_l))
-        cs = CaptionSet({"en": CaptionList(caps, layout_info=lang_l)})
+        # (every third set has a second language with layouts of its own, written after the first)
+        langs = ["en", "fr"] if i % 3 == 2 else ["en"]
+        per_lang, expect = {}, {}
         fit = rng.choice([False, False, True])
+        for lang in langs:
+            lang_l = rand_layout(rng) if rng.random() < 0.5 else None
+            caps, exp = [], []
+            for j in range(rng.choice([1, 2, 3])):
+                cap_l = rand_layout(rng) if rng.random() < 0.5 else None
+                if caps and caps[-1].layout_info is not None and rng.random() < 0.3:
+                    cap_l = noisy(caps[-1].layout_info)
+                nodes = []
+                for k in range(rng.choice([1, 2])):
+                    # a node-level layout is carried by a span: start-style, text, end-style nodes
+                    node_l = rand_layout(rng) if rng.random() < 0.4 else None
+                    if lang_l is not None and cap_l is not None and rng.random() < 0.25:
+                        node_l = lang_l            # a span back in the language's own layout, inside a caption that has another one
+                    if nodes:
+                        nodes.append(CaptionNode.create_break(layout_info=cap_l))
+                    # ... and a node without one may sit in a styled span that has no layout either: the span's text
+                    # takes the caption's layout (else the language's)
+                    italic = node_l is None and rng.random() < 0.4
+                    if node_l:
+                        nodes.append(CaptionNode.create_style(True, {}, layout_info=node_l))
+                    if italic:
+                        nodes.append(CaptionNode.create_style(True, {"italics": True}))
+                    nodes.append(T(f"{lang}{j}{k}", node_l))
+                    if italic:
+                        nodes.append(CaptionNode.create_style(False, {"italics": True}))
+                    if node_l:
+                        nodes.append(CaptionNode.create_style(False, {}, layout_info=node_l))
+                    exp.append((f"{lang}{j}{k}", node_l or cap_l or lang_l, "language" if not (node_l or cap_l) else "own", lang_l))
+                caps.append(Caption(j * 10 ** 6, (j + 1) * 10 ** 6, nodes, layout_info=cap_l))
+            per_lang[lang] = CaptionList(caps, layout_info=lang_l)
+            expect[lang] = exp
+        cs = CaptionSet(per_lang)
 
-        def one():
+        def one(cs=cs, expect=expect, fit=fit, langs=langs):
             out = DFXPWriter(relativize=rng.choice([True, False]), fit_to_screen=fit).write(cs)
             # (the writer puts no positioning attributes on <p>: the reader option that honours them changes nothing)
             back = DFXPReader(read_invalid_positioning=rng.choice([False, True])).read(out)
-            got = [(nd.content, nd.layout_info) for cp in back.get_captions("en") for nd in cp.nodes
-                   if nd.type_ == CaptionNode.TEXT]
-            if [t for t, _ in got] != [t for t, _, _ in expect]:
-                return False, {"texts": [t for t, _ in got], "expected": [t for t, _, _ in expect]}
-            for (t, gl), (_, el, level) in zip(got, expect):
-                if fit and el is not None:
-                    src = el
-                    is_lang_level = level == "language" and lang_l is not None
-                    el = el if is_lang_level else ref_fit(el)      # div region: known finding of C13
-                want = r2(with_defaults(el))
-                if gl != want:
-                    return False, {"text": t, "read": repr(gl), "expected": repr(want), "output": out[:1500]}
+            for lang in langs:
+                got = [(nd.content, nd.layout_info) for cp in back.get_captions(lang) for nd in cp.nodes
+                       if nd.type_ == CaptionNode.TEXT]
+                if [t for t, _ in got] != [t for t, _, _, _ in expect[lang]]:
+                    return False, {"language": lang, "texts": [t for t, _ in got], "expected": [t for t, _, _, _ in expect[lang]]}
+                for (t, gl), (_, el, level, lang_l) in zip(got, expect[lang]):
+                    if fit and el is not None:
+                        is_lang_level = level == "language" and lang_l is not None
+                        el = el if is_lang_level else ref_fit(el)      # div region: known finding of C13
+                    want = r2(with_defaults(el))
+                    if gl != want:
+                        return False, {"language": lang, "text": t, "read": repr(gl), "expected": repr(want), "output": out[:1500]}
             return True, None
-        b.guard(("dfxp", i), one, sample={"language_layout": repr(lang_l), "captions": len(caps), "fit": fit})
+        b.guard(("dfxp", i), one, sample={"languages": langs, "captions": [len(per_lang[l]) for l in langs], "fit": fit})
 
 
 def bounded_webvtt(ctx, b):
